@@ -527,8 +527,10 @@ fn fat_meta(e: &mut Engine, op: &Op, res: &OpRes, vi: usize, wrote: bool) {
     let (check, vs) = match op {
         Op::Flush { fs, .. } | Op::CloseFile { fs, .. } | Op::DropFile { fs } => {
             // (the model entry of a closed file is gone; use the executor's bookkeeping instead)
-            let _ = fs;
-            (res.is_ok() && wrote, None)
+            // ("after a flush": whether or not this particular handle had anything to write -
+            // another call of the history may have allocated or freed clusters since)
+            let _ = (fs, wrote);
+            (res.is_ok(), None)
         }
         Op::CloseVol { vs, .. } => (res.is_ok(), Some(*vs)),
         _ => (false, None),
